@@ -31,12 +31,12 @@ func init() {
 
 type c06Case struct {
 	coreCase
-	MaxBatch  int    `json:"max_batch"`
-	FaultAt   string `json:"fault_at,omitempty"`   // "" | "child" | "sibling": where a downstream failure is injected
-	FaultKind string `json:"fault_kind,omitempty"` // errors | status | transport
-	Repeat    int    `json:"repeat"`               // the same client request sent this many times
-	Config    string   `json:"config,omitempty"`   // "" | id-hint | cached-planner | cached-planner+id-hint: optional gateway features
-	Seq       []string `json:"seq,omitempty"`      // two-mutation documents: the operationName of each round (same gateway, same document text)
+	MaxBatch  int      `json:"max_batch"`
+	FaultAt   string   `json:"fault_at,omitempty"`   // "" | "child" | "sibling": where a downstream failure is injected
+	FaultKind string   `json:"fault_kind,omitempty"` // errors | status | transport
+	Repeat    int      `json:"repeat"`               // the same client request sent this many times
+	Config    string   `json:"config,omitempty"`     // "" | id-hint | cached-planner | cached-planner+id-hint: optional gateway features
+	Seq       []string `json:"seq,omitempty"`        // two-mutation documents: the operationName of each round (same gateway, same document text)
 }
 
 // rootSelections: response key → field name of the (flattened) root selection set of an operation.
